@@ -138,6 +138,10 @@ def run(ctx):
     ctx.check("C18-R4", "authority/path sources", any("Url::authority(" in e for e in evs) and any("Url::path(" in e for e in evs) and any("Url::query(" in e for e in evs),
               "SessionRequest::new no longer derives :authority/:path from Url::authority()/path()/query()", where(f))
 
+    shared.request_from_url(ctx, "C18-R4")
+    ctx.rule("C18-R6", "the reserved-name guard and the store see the same string: Headers::insert / get are identity on names")
+    shared.headers_store_identity(ctx, "C18-R6")
+
     ctx.rule("C18-R5", "server refusal codes (stream-level) and client handling of the response status")
     shared.handle_bi_table(ctx, "C18-R5")
     shared.connect_response_table(ctx, "C18-R5")
